@@ -32,8 +32,8 @@ CHECKS = {
             "DESIGN.md 4/C04"),
     "C13": ("exploration",
             "exhaustive enumeration of top-level output signatures x leaf modes x mapping/wrapping, run on the real runtime and post-processor, type-directed before/after walk of the outputs record",
-            "909 programs in the quick family (all combinations in thorough): top-level pipelines returning each of 12 producer outputs alone (user file type, file, arrays and typed maps of files, struct / struct array / typed map of structs holding a file, 2-dimensional file array, string and untyped map holding a path, directory, int) and three combinations x collection sizes {2,0,1,11} x leaf modes {written, null, named-but-missing, relative symlink, outside the pipestance} x explicit out names x mapped producer x mapped top-level call x pass-through sub-pipeline, plus 5 kinds of output-name collision (explicit vs default name in both declaration orders, two explicit names, inside a struct, file vs directory). Each program runs to completion on the real runtime with real files, then VDRKill + PostProcess as mrp does. Oracle: record is valid JSON of the same shape, non-file values unchanged, every non-null file leaf recorded at an existing location under outs/ holding exactly its producer's bytes (files are self-describing), leaves naming different files at different locations, file-type extension kept; colliding names must be rejected at compile time or materialised apart.",
-            "two leaves naming the same source file may share one materialised location (unspecified); for symlinked outputs and outputs outside the pipestance any recorded location resolving to the producer's bytes is accepted; the human-readable summary printed to stdout is not checked",
+            "2744 programs in the quick family (all combinations in thorough): top-level pipelines returning each of 14 producer outputs alone (user file type, file, arrays and typed maps of files, struct / struct array / typed map of structs holding a file, 2-dimensional file array, typed map of file arrays, struct of struct + array + map + explicitly named file, string and untyped map holding a path, directory, int) and three combinations x collection sizes {2,0,1,11} x leaf modes {written, null, named-but-missing, relative symlink, outside the pipestance} x explicit out names x mapped producer x mapped top-level call x pass-through sub-pipeline, plus 5 kinds of output-name collision (explicit vs default name in both declaration orders, two explicit names, inside a struct, file vs directory) and 5 map-key styles (unusual but legal file names; '/', '.', '..', empty; quotes, backslashes, control characters). Each program runs to completion on the real runtime with real files, then VDRKill + PostProcess as mrp does. Oracle: record is valid JSON of the same shape, non-file values unchanged, every non-null file leaf recorded at an existing location under outs/ holding exactly its producer's bytes (files are self-describing), leaves naming different files at different locations, file-type extension kept; colliding names must be rejected at compile time or materialised apart.",
+            "two leaves naming the same source file may share one materialised location (unspecified); a producing stage returning a map<file> key that is not a legal file name is refused by output validation (counted as key-refused, not a violation); for symlinked outputs and outputs outside the pipestance any recorded location resolving to the producer's bytes is accepted; the human-readable summary printed to stdout is not checked",
             "DESIGN.md 4/C13"),
     "C14": ("exploration",
             "same executions as C04; reclamation and accounting oracles against a harness-measured removal ledger",
